@@ -453,6 +453,7 @@ type Pred struct {
 	Body   SExpr
 	Src    string
 	Rec    bool
+	Ret    string // recfun: "float" or "int"; "" for predicates
 }
 
 type OnCall struct {
@@ -495,7 +496,7 @@ type SpecDB struct {
 
 var clauseKeywords = map[string]bool{"func": true, "requires": true, "ensures": true, "modifies": true, "allocbound": true,
 	"loop": true, "mode": true, "trusted": true, "prop": true, "pred": true, "lemma": true, "pure": true, "inline": true,
-	"split": true, "noverify": true, "ghost": true, "timeout": true, "opaque": true, "recpred": true, "oncall": true, "sweep": true, "typeinv": true, "notypeinv": true, "ovfcheck": true, "assumeinv": true, "defines": true, "assume-unreachable": true, "wraparith": true}
+	"split": true, "noverify": true, "ghost": true, "timeout": true, "opaque": true, "recpred": true, "recfun": true, "oncall": true, "sweep": true, "typeinv": true, "notypeinv": true, "ovfcheck": true, "assumeinv": true, "defines": true, "assume-unreachable": true, "wraparith": true}
 
 // LoadSpecs parses every verif_contracts*.go in dir (package name pkg).
 func LoadSpecs(db *SpecDB, dir, pkg string) error {
@@ -603,7 +604,7 @@ func loadSpecFile(db *SpecDB, file, pkg string) error {
 			}
 			cur = &Contract{Key: key, Pkg: pkg, Loops: map[int]*LoopSpec{}, File: file, Line: rl.line, Props: curProps}
 			db.Contracts[key] = cur
-		case "pred", "recpred":
+		case "pred", "recpred", "recfun":
 			cur = nil
 			// pred Name(a, b) = expr
 			i := strings.Index(rest, "(")
@@ -618,7 +619,15 @@ func loadSpecFile(db *SpecDB, file, pkg string) error {
 			if err != nil {
 				return fmt.Errorf("%s:%d: %v", file, rl.line, err)
 			}
-			db.Preds[name] = &Pred{Name: name, Params: params, Body: e, Src: rest[k+1:], Rec: kw == "recpred"}
+			ret := ""
+			if kw == "recfun" {
+				// recfun Name(a, b): float = expr   (recursive spec function with a numeric value)
+				ret = strings.TrimSpace(strings.TrimPrefix(strings.TrimSpace(rest[j+1:k]), ":"))
+				if ret != "float" && ret != "int" {
+					return fmt.Errorf("%s:%d: recfun needs a result sort (float or int)", file, rl.line)
+				}
+			}
+			db.Preds[name] = &Pred{Name: name, Params: params, Body: e, Src: rest[k+1:], Rec: kw != "pred", Ret: ret}
 		case "lemma":
 			cur = nil
 			i := strings.Index(rest, ":")
